@@ -6,8 +6,9 @@ Import ListNotations.
 Record rcase := mkRC {
   rc_id : nat;
   rc_reqs : list reg_req;
-  rc_outs : list nat;              (* 0 ok | 1 same | 2 panic, as observed *)
-  rc_final : list (nat * nat)      (* (name id, instance) registered at the end, as observed *)
+  rc_outs : list nat;              (* 0 ok | 1 same | 2 panic (at the quiet level: dropped), as observed *)
+  rc_final : list (nat * nat);     (* (name id, instance) registered at the end, as observed *)
+  rc_quiet : bool                  (* run at syslog.LvFatal: a duplicate is dropped silently and registration goes on *)
 }.
 
 Definition out_code (o : reg_out) : nat := match o with RegOk => 0 | RegSame => 1 | RegPanic => 2 end.
@@ -19,7 +20,7 @@ Definition sort_pairs (l : list (nat * nat)) := fold_right ins_pair [] l.
 Definition pair_eqb (a b : nat * nat) := Nat.eqb (fst a) (fst b) && Nat.eqb (snd a) (snd b).
 
 Definition rcheck (c : rcase) : bool :=
-  let (s, outs) := register_all [] (rc_reqs c) in
+  let (s, outs) := if rc_quiet c then register_all_q [] (rc_reqs c) else register_all [] (rc_reqs c) in
   list_eqb Nat.eqb (map out_code outs) (rc_outs c)
   && list_eqb pair_eqb (sort_pairs s) (sort_pairs (rc_final c)).
 
@@ -30,18 +31,24 @@ Fixpoint nodup_fst (l : list (nat * nat)) : bool :=
 
 (* every registration that was NOT refused (ok / same) carried a name that no different instance had taken before;
    instances are told apart by identity, never by where they live (two components may share an address) *)
-Fixpoint accepted_ok (seen : list (nat * nat)) (rs : list reg_req) (outs : list nat) : bool :=
+Fixpoint accepted_ok (quiet : bool) (seen : list (nat * nat)) (rs : list reg_req) (outs : list nat) : bool :=
   match rs, outs with
   | r :: rs', o :: outs' =>
-    if Nat.eqb o 2 then true      (* refused: SetComponents unwinds here *)
+    if Nat.eqb o 2 then
+      (* refused: SetComponents unwinds here; at the quiet level the duplicate is dropped - it must BE one - and
+         registration goes on *)
+      if quiet then existsb (fun p => Nat.eqb (fst p) (reg_name r) && negb (Nat.eqb (snd p) (rq_inst r))) seen
+                    && accepted_ok quiet seen rs' outs'
+      else true
     else negb (existsb (fun p => Nat.eqb (fst p) (reg_name r) && negb (Nat.eqb (snd p) (rq_inst r))) seen)
-         && accepted_ok ((reg_name r, rq_inst r) :: seen) rs' outs'
+         && accepted_ok quiet ((reg_name r, rq_inst r) :: seen) rs' outs'
   | _, _ => true
   end.
 
 Definition roracle (c : rcase) : bool :=
   nodup_fst (rc_final c)
-  && accepted_ok [] (rc_reqs c) (rc_outs c)
+  && accepted_ok (rc_quiet c) [] (rc_reqs c) (rc_outs c)
+  && (if rc_quiet c then Nat.eqb (length (rc_outs c)) (length (rc_reqs c)) else true)
   && forallb (fun p => match find (fun r => Nat.eqb (reg_name r) (fst p)) (rc_reqs c) with
                        | Some r => Nat.eqb (rq_inst r) (snd p)      (* the FIRST registrant holds the name *)
                        | None => false
@@ -50,4 +57,5 @@ Definition roracle (c : rcase) : bool :=
 Definition rmismatches (cs : list rcase) : list nat := map rc_id (filter (fun c => negb (rcheck c)) cs).
 Definition rviolations (cs : list rcase) : list nat := map rc_id (filter (fun c => negb (roracle c)) cs).
 Definition rnontrivial (cs : list rcase) : list nat :=
-  [length (filter (fun c => existsb (Nat.eqb 2) (rc_outs c) || existsb (Nat.eqb 1) (rc_outs c)) cs)].
+  [length (filter (fun c => existsb (Nat.eqb 2) (rc_outs c) || existsb (Nat.eqb 1) (rc_outs c)) cs);
+   length (filter (fun c => rc_quiet c && existsb (Nat.eqb 2) (rc_outs c)) cs)].
